@@ -51,7 +51,7 @@ func p(id string, rules []string, decided []string, notDecided, technique string
 
 func init() {
 	p("C01",
-		[]string{"T-ROUND", "T-SETEXP", "T-ARITH@Add(|Sub(|Mul(|Quo(", "T-UNARY@Set(|SetPrec(|Neg(|Abs(", "SIGN", "EXP", "WORD", "CARRY", "MUSTFLOW", "NORM", "PREC0@Add|Sub|Mul|Quo|Set|Neg|Abs|SetPrec", "LOWCUT", "SHIFTDIR"},
+		[]string{"T-ROUND", "T-SETEXP", "T-ARITH@Add(|Sub(|Mul(|Quo(", "T-UNARY@Set(|SetPrec(|Neg(|Abs(", "SIGN", "EXP", "WORD", "CARRY", "MUSTFLOW", "NORM", "PREC0@Add|Sub|Mul|Quo|Set|Neg|Abs|SetPrec", "LOWCUT", "SHIFTDIR", "QUOLEN", "ROUNDSHAPE", "ROUNDONCE@Add|Sub|Mul|Quo|Set|Neg|Abs|umul|uquo|uadd|usub", "STICKY", "MUSTUSE"},
 		[]string{
 			"T-ROUND: the rounding decision of round() equals the IEEE 754 direction table for all 6 modes x 2 signs x 10 rounding digits x sticky (argument or mantissa) x parity, with the all-nines carry stepping the exponent or overflowing to Inf.",
 			"T-SETEXP: exponent underflow -> zero and overflow -> Inf of the result's sign before rounding; the caller's sticky bit is handed to round.",
@@ -59,36 +59,42 @@ func init() {
 			"T-UNARY: Set/SetPrec/Neg/Abs round exactly when the precision shrinks, with the documented sign.",
 			"SIGN: no store to the sign after a call that may round the same object (except Neg/Abs, documented, which nothing in the package builds on, and the exact-zero fix-up); EXP: no wide integer becomes the int32 exponent outside a [MinExp, MaxExp] test, exp+1 is guarded, the int64 exponent sum cannot wrap; WORD: only kernel results and reduced values enter a mantissa (in particular in the division add-back that feeds the sticky bit); CARRY: the all-nines carry of round and the top carry of dec.add are consumed; MUSTFLOW: the dnorm shift reaches the exponent and the division remainder reaches the sticky bit; NORM: every computed mantissa is normalised, then rounded, before a success exit.",
 			"LOWCUT: no low-order words of a mantissa are sliced away before rounding unless sticky(words*_DW) of exactly those words reaches the rounding (a shortened dividend or truncated operand loses digits the rounding must see); SHIFTDIR: in uadd/usub the alignment shift count is a difference proven positive by the enclosing comparison, and the operand shifted left is the one with the larger exponent.",
+			"QUOLEN: the number of quotient words uquo asks for, a pure integer function n(prec), satisfies n(prec)*_DW > prec for every precision (room for the rounding digit) — decided by evaluating the closed formula over two periods of the word size and the top of the range; ROUNDSHAPE: every finite exit of round after a cut/increment passes the store that clears the digits below the precision; ROUNDONCE: no path of Add/Sub/Mul/Quo/Set/Neg/Abs and the unsigned helpers applies two rounding operations to the receiver.",
+			"STICKY: dec.sticky answers 0 only behind the scan of all lower words (or for an empty operand / a zero digit count); MUSTUSE: every exit of uadd/usub/umul/uquo follows a dec-layer operation on the mantissas of both operands (no `the other operand is negligible` shortcut); ROUNDSHAPE/carry-word: after the all-nines carry the word written is the top word of the cut mantissa.",
 		},
 		"that alignment shifts, digit positions, products and quotients are the right numbers (numeric core, not applicable to static analysis)",
 		techCDAI, cdaiAssume)
 	p("C02",
-		[]string{"T-ROUND", "T-SETEXP", "T-ARITH@Add(|Sub(|Mul(|Quo(|FMA(", "T-UNARY@Set(|SetPrec(|SetInf(|SetMode(|SetInt|SetUint64(|NewDecimal(|SetMantExp(", "FX-ACC", "SIGN", "MUSTFLOW@remainder", "WORD@divBasic|divLarge|divRecursiveStep", "LOWCUT"},
+		[]string{"T-ROUND", "T-SETEXP", "T-ARITH@Add(|Sub(|Mul(|Quo(|FMA(", "T-UNARY@Set(|SetPrec(|SetInf(|SetMode(|SetInt|SetUint64(|NewDecimal(|SetMantExp(", "FX-ACC", "SIGN", "MUSTFLOW@remainder", "WORD@divBasic|divLarge|divRecursiveStep", "LOWCUT", "QUOLEN", "ROUNDONCE@SetRat|Quo|uquo", "STICKY"},
 		[]string{
 			"T-ROUND/T-SETEXP accuracy columns: acc = sign of (stored - exact) as a function of increment and sign; Exact iff rounding digit = 0 and no sticky; underflow/overflow accuracies.",
 			"T-ARITH/T-UNARY: every special-value result is reported Exact, the exact-cancellation branch reports Exact, no rounding happens under a sign that is flipped afterwards.",
 			"FX-ACC: every listed operation writes the accuracy on every success exit (also z.Set(z)), so no stale accuracy of an earlier operation survives.",
 			"SIGN(b): an accuracy computed for +y is never reused for -y (nothing builds on Neg/Abs); MUSTFLOW: a non-zero division remainder sets the sticky bit; WORD: the remainder words are valid decimal words (so `len(r) > 0` means inexact).",
 			"LOWCUT: digits dropped from an operand before the operation are accounted for in the sticky bit (otherwise an inexact result reports Exact).",
+			"QUOLEN: a quotient of exactly prec digits (no rounding digit) would be taken for Exact by round whatever the remainder — the word count formula leaves room for prec+1 digits at every precision; ROUNDONCE: SetRat does not round the numerator into the receiver before dividing.",
+			"STICKY: a sticky bit of 0 means every lower word was looked at (an early `return 0` reports inexact results as Exact).",
 		},
 		"that the sticky bit summarises exactly the discarded digits (numeric)",
 		techCDAI, cdaiAssume, fxAssume)
 	p("C03",
-		[]string{"T-ARITH@FMA(", "T-ARITH-ALIAS@FMA(", "FX-RAW@(*Decimal).FMA", "FX-RBW@(*Decimal).FMA", "FX-STICKY@(*Decimal).FMA"},
+		[]string{"T-ARITH@FMA(", "T-ARITH-ALIAS@FMA(", "FX-RAW@(*Decimal).FMA", "FX-RBW@(*Decimal).FMA", "FX-STICKY@(*Decimal).FMA", "MUSTUSE@uadd|usub|umul"},
 		[]string{
 			"T-ARITH for FMA over {±0, ±finite, ±Inf}^3 x 6 modes x precision orderings: ErrNaN exactly for 0*Inf and Inf-Inf forms, IEEE zero-sum sign including a zero u, the product computed exactly (precision MaxPrec, restored afterwards) and rounded once, sign and operand order of the final unsigned add/sub.",
 			"T-ARITH-ALIAS: the same table with the receiver bound to x, y, u and operands bound to each other.",
 			"FX-RAW: no field of x, y or u is read after the same field of the receiver (or of the scratch object that may be the receiver) was written unless a pointer comparison proved them distinct; FX-RBW: nothing the receiver held before is read; FX-STICKY: the temporary precision MaxPrec is restored on every exit.",
+			"MUSTUSE: the addition/subtraction FMA hands its unrounded product to combines both mantissas on every path (a fast path that rounds the wide product alone loses carries from the addend).",
 		},
 		"the numeric result for finite operands; whether an intermediate product outside the exponent range is handled exactly",
 		techCDAI, cdaiAssume, fxAssume)
 	p("C04",
-		[]string{"T-ARITH", "T-UNARY@Sqrt(", "T-CONV@SetFloat", "PREC0", "FX-RBW", "PANIC", "ENUM", "GUARD", "WORD@divBasic|divLarge|divRecursiveStep|dec.sub|dec.add"},
+		[]string{"T-ARITH", "T-UNARY@Sqrt(", "T-CONV@SetFloat", "PREC0", "FX-RBW", "PANIC", "ENUM", "GUARD", "WORD@divBasic|divLarge|divRecursiveStep|dec.sub|dec.add", "FX-DEF"},
 		[]string{
 			"T-ARITH: every class combination of Add/Sub/Mul/Quo/FMA in every mode gives the IEEE form and sign or panics with ErrNaN, and nothing else panics with ErrNaN.",
 			"T-UNARY: Sqrt special values (sqrt(±0)=±0, sqrt(+Inf)=+Inf, negative -> ErrNaN); T-CONV: SetFloat64(NaN) -> ErrNaN, no other class panics.",
 			"PREC0: no exported operation can reach round with an unexamined (possibly zero) precision (index out of range in round); FX-RBW: no setter dispatches on the receiver's previous form.",
 			"PANIC: census of all reachable panic sites: ErrNaN only in the seven documented operations, re-panics in package context, `unreachable` only behind switches that handle every enumerator (ENUM: form, mode and acc only ever receive declared enumerators), the rest tabled by (function, message) with its discharge argument — a new site fails; GUARD: every usub is dominated by a ucmp edge implying |a| >= |b| (dec.sub's underflow panic stays dead); WORD rules out the known cause of panic(\"impossible\").",
+			"FX-DEF: every value-defining operation leaves form and sign defined by the call on every normal return (no stale sign on a zero result, no stale form after an early exit).",
 		},
 		"absence of run-time panics (index, nil) in the numeric code paths in general; the cell (+0)+(-0) under ToNegativeInf is left unconstrained (the code follows math/big, see DESIGN §5 F15)",
 		techCDAI, cdaiAssume, fxAssume)
@@ -113,9 +119,10 @@ func init() {
 		"that Karatsuba, schoolbook and recursive code compute the same product/quotient (arithmetic), buffer-length contracts (len(z) >= 6n), the partial clear in mul, the numeric `impossible` guards: NOT APPLICABLE to static analysis",
 		"provenance dataflow on stored words, use-def of kernel results, dominance of alias guards and initialisers, slice-root analysis", fxAssume)
 	p("C08",
-		[]string{"WORD", "NORM", "EXP", "PREC0", "ENUM", "FX-OWN", "GOB@G2|G4", "SIGN@usub", "DECNORM", "LOWCUT"},
+		[]string{"WORD", "NORM", "EXP", "PREC0", "ENUM", "FX-OWN", "GOB@G2|G4", "SIGN@usub", "DECNORM", "LOWCUT", "ROUNDSHAPE"},
 		[]string{
 			"An inductive invariant over all operation sequences, one clause per rule, the induction step being per exported method: words < base (WORD, and GOB G2 for decoded words); a computed mantissa is normalised and rounded before it can be observed as finite (NORM); the exponent stays within [MinExp, MaxExp] (EXP); finite implies precision > 0 (PREC0 and GOB G2 digits<=prec; GOB G4: a receiver that keeps its own smaller precision gets the decoded value rounded into it through SetPrec, never a plain store of the precision); form, mode and acc hold declared enumerators only (ENUM); each Decimal owns its mantissa array (FX-OWN).",
+			"ROUNDSHAPE: round clears the digits below the precision in the lowest kept word on every finite exit reached after a cut or an increment (also after the all-nines carry).",
 		},
 		"`no non-zero digit beyond the precision` (the arithmetic of round's lsd)",
 		"typestate and provenance dataflow on the SSA form, dominance of range tests", fxAssume)
@@ -150,7 +157,7 @@ func init() {
 		"stale words in a reused mantissa buffer (dec.make does not clear) beyond the INIT rule",
 		techFX+"; plus E4 tables under aliasing", cdaiAssume, fxAssume)
 	p("C11",
-		[]string{"FMTSHAPE@MarshalText|shortest|infinity|exponent-marker", "FX-IMMUT@(*Decimal).Append|(*Decimal).Text|(*Decimal).String|(*Decimal).Format|(*Decimal).fmt|(*Decimal).toa|(*Decimal).MarshalText|(*Decimal).bufSizeForFmt", "CONST@pow10tab|decMaxPow", "EXP", "SCANSHAPE@exp-bits"},
+		[]string{"FMTSHAPE@MarshalText|shortest|infinity|exponent-marker", "FX-IMMUT@(*Decimal).Append|(*Decimal).Text|(*Decimal).String|(*Decimal).Format|(*Decimal).fmt|(*Decimal).toa|(*Decimal).MarshalText|(*Decimal).bufSizeForFmt", "CONST@pow10tab|decMaxPow", "EXP", "SCANSHAPE@exp-bits|exponent-consumed"},
 		[]string{
 			"FMTSHAPE: MarshalText (hence JSON) calls Append with a constant negative precision in a format Parse reads; on the negative-precision path Append makes no rounding copy; the infinity spelling Append writes is one Parse compares against and the exponent markers of the b and p formats are among those scanExponent accepts.",
 			"EXP(ii)/(iv): no int32 arithmetic on the exponent in the writers; SCANSHAPE/exp-bits: the reader parses the exponent field as a signed 64-bit integer — fmtE writes x.exp-1 and fmtB x.exp-prec, which fall below MinInt32 for values near MinExp, so a narrower parse cannot read back what the writer produced.",
@@ -178,22 +185,24 @@ func init() {
 		"digit counts, %g exponent thresholds, padding and layout: NOT APPLICABLE to static analysis (arithmetic on run-time lengths); thin necessary-condition claim only",
 		"shape rules on the SSA form of Append/Format (receiver chain of the rounding copy, dominance of the precision test, lower-bound reasoning on the requested precision)", fxAssume)
 	p("C14",
-		[]string{"T-CONV@Int64(|Uint64(|Int(|Rat(", "T-UNARY@SetInt|SetUint64(|NewDecimal(|MinPrec(|IsInt(", "FX-STICKY@SetInt|SetUint64|SetRat|setBits64", "PREC0@SetInt|SetUint64|SetRat|setBits64|NewDecimal", "EXP@setBits64|SetInt|limitExp", "NORM@setBits64|SetInt", "MUSTFLOW@setBits64|SetInt", "SIGN@SetInt|setBits64", "OUTPARAM@Int/|Rat/"},
+		[]string{"T-CONV@Int64(|Uint64(|Int(|Rat(", "T-UNARY@SetInt|SetUint64(|NewDecimal(|MinPrec(|IsInt(", "FX-STICKY@SetInt|SetUint64|SetRat|setBits64", "PREC0@SetInt|SetUint64|SetRat|setBits64|NewDecimal", "EXP@setBits64|SetInt|limitExp", "NORM@setBits64|SetInt", "MUSTFLOW@setBits64|SetInt", "SIGN@SetInt|setBits64", "OUTPARAM@Int/|Rat/", "NATLEN", "ROUNDONCE@SetRat|SetInt|setBits64", "FX-DEF@SetInt|SetUint64|SetRat|setBits64"},
 		[]string{
 			"T-CONV: Int64/Uint64/Int/Rat for ±0, ±Inf and finite values by exponent class give the documented saturation values and accuracies.",
 			"T-UNARY: SetInt/SetInt64/SetUint64/NewDecimal set the sign before rounding, +0 for a zero argument, keep a non-zero precision and choose the documented default otherwise; MinPrec/IsInt special cases.",
 			"FX-STICKY/PREC0 for the integer setters.",
 			"EXP(iii): NewDecimal's caller-supplied exponent is clamped before it enters the int64 sum (saturation to ±0/±Inf instead of wrap-around); NORM/MUSTFLOW/SIGN for the integer setters.",
 			"EXP(iv): the clamp of limitExp lies in [2^34, 2^62] (wide enough that clamped offsets stay out of range, narrow enough that the int64 sum cannot wrap). OUTPARAM: a caller-supplied *big.Int / *big.Rat is completely redefined on every exit of Int and Rat that returns it (for Rat: the denominator is written, not only the numerator).",
+			"NATLEN: the number of binary words decToNat allocates, a pure function w(d) of the digit count, satisfies w(d)*_W >= bitlen(10^d-1) — decided by evaluating the formula for d = 1..4000 and three larger values against exact powers of ten (Int and Rat would otherwise drop the top word silently); ROUNDONCE: SetRat converts numerator and denominator exactly (into temporaries) and rounds once in Quo.",
 		},
 		"exactness of the radix conversions and of SetInt's precision estimate (numeric)",
 		techCDAI, cdaiAssume, fxAssume)
 	p("C15",
-		[]string{"T-CONV@SetFloat", "FX-RBW@SetFloat", "FX-STICKY@SetFloat", "OUTPARAM@Float/", "PRECWRAP@SetFloat"},
+		[]string{"T-CONV@SetFloat", "FX-RBW@SetFloat", "FX-STICKY@SetFloat", "OUTPARAM@Float/", "PRECWRAP@SetFloat", "NATLEN"},
 		[]string{
 			"T-CONV: SetFloat64 and SetFloat dispatch on the ARGUMENT's class: NaN -> ErrNaN, ±0 and ±Inf map to themselves with the argument's sign and Exact accuracy, a finite value enters the scaling arithmetic with the argument's sign and is rounded last with the receiver's precision.",
 			"FX-RBW: neither reads the receiver's previous form/sign; FX-STICKY: the temporary precision increment is undone on every exit.",
 			"T-CONV (guard digit): the scaling Mul/Quo by 2**n runs at a precision strictly above the final one (otherwise the value is rounded twice). OUTPARAM: a caller-supplied *big.Float is completely redefined on every exit of Float that returns it. PRECWRAP: the temporary extra digit is taken only on a path where prec < MaxPrec holds (z.prec++ at MaxPrec wraps to 0: F18, fixed).",
+			"NATLEN: Float/Float64/Float32 go through decToNat: its word count formula leaves room for the largest integer of the operand's digit count.",
 		},
 		"nearest/faithful rounding of the conversions, double rounding in Float32/Float64 (numeric, not applicable)",
 		techCDAI, cdaiAssume, fxAssume)
@@ -236,11 +245,12 @@ func init() {
 		"exclusive ownership of pooled scratch buffers between getDec and putDec (POOL rule) and the store targets of the assembly kernels (E7) where not yet listed; equality of concurrent and sequential results beyond 'no shared write'",
 		techFX, fxAssume)
 	p("C20",
-		[]string{"T-UNARY@MantExp(|SetMantExp(", "PREC0@SetBitsExp|SetMantExp|MantExp", "FX-RBW@SetBitsExp|SetMantExp", "FX-RAW@MantExp|SetMantExp", "FX-OWN@BitsExp|SetBitsExp|MantExp|SetMantExp|Copy", "FX-STICKY@SetBitsExp", "EXP@SetBitsExp|SetMantExp|limitExp", "NORM@SetBitsExp", "MUSTFLOW@SetBitsExp", "SIGN@SetBitsExp", "LOWCUT"},
+		[]string{"T-UNARY@MantExp(|SetMantExp(", "PREC0@SetBitsExp|SetMantExp|MantExp", "FX-RBW@SetBitsExp|SetMantExp", "FX-RAW@MantExp|SetMantExp", "FX-OWN@BitsExp|SetBitsExp|MantExp|SetMantExp|Copy", "FX-STICKY@SetBitsExp", "EXP@SetBitsExp|SetMantExp|limitExp", "NORM@SetBitsExp", "MUSTFLOW@SetBitsExp", "SIGN@SetBitsExp", "LOWCUT", "FX-DEF@SetBitsExp|SetMantExp"},
 		[]string{
 			"T-UNARY: MantExp returns 0 and copies form/sign for ±0/±Inf, returns x's exponent and leaves mant with exponent 0 otherwise (also for mant nil and mant = x); SetMantExp copies zeros/infinities without scaling and enters setExpAndRound with exponent(mant)+exp and the sign already set, also for z = mant.",
 			"PREC0: SetBitsExp/SetMantExp never round with precision 0; FX-RBW: nothing of the old receiver is read; FX-RAW: MantExp(x == mant) and SetMantExp(z == mant) have no read-after-write hazard; FX-OWN: the only functions that share a mantissa array with the caller are SetBitsExp and BitsExp (documented).",
 			"EXP(iii)/(iv): the int64 exponent arithmetic of SetBitsExp/SetMantExp cannot wrap before the range check (caller's term clamped, with a clamp in [2^34, 2^62] so that offsets that cancel against the other summand still give the right in-range result); NORM + MUSTFLOW: SetBitsExp strips zero words, normalises, and both corrections reach the exponent.",
+			"FX-DEF: SetBitsExp/SetMantExp define form and sign on every return (an all-zero slice gives +0 whatever sign the receiver had).",
 		},
 		"the exponent-correction arithmetic of SetBitsExp/BitsExp (numeric)",
 		techCDAI, cdaiAssume, fxAssume)
